@@ -478,6 +478,73 @@ def inject_c12_overlay(scratch):
     open(cargo, "w").write(c2)
 
 
+def _common_inject(scratch, env_cfg):
+    """nd + verif_env modules at the crate root, allocator_api for the Arc::drop_slow stub, logging off."""
+    tsrc = os.path.join(scratch.repo, "tarpc", "src")
+    shutil.copy(os.path.join(VERIF, "overlay", "verif_env.rs"), os.path.join(tsrc, "verif_env.rs"))
+    shutil.copy(os.path.join(VERIF, "harness", "common", "nd.rs"), os.path.join(tsrc, "verif_nd.rs"))
+    lib = os.path.join(tsrc, "lib.rs")
+    lt = open(lib).read()
+    if "feature(allocator_api)" not in lt:
+        lt = "#![cfg_attr(kani, feature(allocator_api))]\n" + lt
+    if "pub mod nd;" not in lt:
+        lt += "\n#[cfg(any(kani, verif_replay))]\n#[allow(missing_docs, dead_code, unused_imports, unused_macros)]\n#[path = \"verif_nd.rs\"]\npub mod nd;\n"
+    if "mod verif_env;" not in lt:
+        lt += "\n#[cfg(%s)]\n#[path = \"verif_env.rs\"]\npub(crate) mod verif_env;\n" % env_cfg
+    open(lib, "w").write(lt)
+    cargo = os.path.join(scratch.repo, "tarpc", "Cargo.toml")
+    cc = open(cargo).read()
+    if '"max_level_off"' not in cc:
+        c2 = re.sub(r'(tracing = \{ version = "0\.1", default-features = false, features = \[)', r'\1\n    "max_level_off",', cc, count=1)
+        if c2 == cc:
+            raise Inconclusive("could not add max_level_off to tarpc's tracing dependency in the scratch copy")
+        c2 = c2.replace("[dependencies]\n", "[dependencies]\nlog = { version = \"0.4\", features = [\"max_level_off\"] }\n", 1)
+        open(cargo, "w").write(c2)
+
+
+def _swap(path, pairs):
+    c = open(path).read()
+    for a, b in pairs:
+        if a not in c:
+            raise Inconclusive("%s: %r not found, cannot swap the environment models in" % (os.path.basename(path), a))
+        c = c.replace(a, b, 1)
+    open(path, "w").write(c)
+
+
+def inject_server_table_overlay(scratch):
+    """Server in-flight table: harness as a child module of server/in_flight_requests.rs; FnvHashMap
+    and tokio_util's DelayQueue replaced by the models under cfg(any(kani, verif_replay)) (the real
+    DelayQueue cannot run without a tokio runtime, so the native replay uses the models too)."""
+    cfg = "any(kani, verif_replay)"
+    _common_inject(scratch, cfg)
+    tsrc = os.path.join(scratch.repo, "tarpc", "src")
+    shutil.copy(os.path.join(VERIF, "overlay", "tarpc_overlay_sift.rs"), os.path.join(tsrc, "server", "verif_overlay_sift.rs"))
+    f = os.path.join(tsrc, "server", "in_flight_requests.rs")
+    _swap(f, [("use fnv::FnvHashMap;", "#[cfg(not(%s))]\nuse fnv::FnvHashMap;\n#[cfg(%s)]\nuse crate::verif_env::FnvHashMap;" % (cfg, cfg)),
+              ("    collections::hash_map,\n", ""),
+              ("use tokio_util::time::delay_queue::{self, DelayQueue};",
+               "#[cfg(not(%s))]\nuse tokio_util::time::delay_queue::{self, DelayQueue};\n#[cfg(%s)]\nuse crate::verif_env::delay_queue::{self, DelayQueue};\n"
+               "#[cfg(not(%s))]\nuse std::collections::hash_map;\n#[cfg(%s)]\nuse crate::verif_env::hash_map;" % (cfg, cfg, cfg, cfg))])
+    with open(f, "a") as fh:
+        fh.write("\n#[cfg(%s)]\n#[path = \"verif_overlay_sift.rs\"]\nmod verif_overlay_sift;\n" % cfg)
+
+
+def inject_client_table_overlay(scratch):
+    """Client in-flight table: same scheme as the server table."""
+    cfg = "any(kani, verif_replay)"
+    _common_inject(scratch, cfg)
+    tsrc = os.path.join(scratch.repo, "tarpc", "src")
+    shutil.copy(os.path.join(VERIF, "overlay", "tarpc_overlay_cift.rs"), os.path.join(tsrc, "client", "verif_overlay_cift.rs"))
+    f = os.path.join(tsrc, "client", "in_flight_requests.rs")
+    _swap(f, [("use fnv::FnvHashMap;", "#[cfg(not(%s))]\nuse fnv::FnvHashMap;\n#[cfg(%s)]\nuse crate::verif_env::FnvHashMap;" % (cfg, cfg)),
+              ("    collections::hash_map,\n", ""),
+              ("use tokio_util::time::delay_queue::{self, DelayQueue};",
+               "#[cfg(not(%s))]\nuse tokio_util::time::delay_queue::{self, DelayQueue};\n#[cfg(%s)]\nuse crate::verif_env::delay_queue::{self, DelayQueue};\n"
+               "#[cfg(not(%s))]\nuse std::collections::hash_map;\n#[cfg(%s)]\nuse crate::verif_env::hash_map;" % (cfg, cfg, cfg, cfg))])
+    with open(f, "a") as fh:
+        fh.write("\n#[cfg(%s)]\n#[path = \"verif_overlay_cift.rs\"]\nmod verif_overlay_cift;\n" % cfg)
+
+
 def inject_c13_overlay(scratch):
     """C13: harness module next to channels_per_key.rs (private constructor), environment models
     for tokio mpsc / FnvHashMap swapped in under cfg(kani) ONLY (the native replay uses the real
@@ -529,9 +596,11 @@ def inject_overlay(scratch):
     open(os.path.join(tsrc, "verif_overlay.rs"), "w").write(ov)
     shutil.copy(os.path.join(VERIF, "harness", "common", "nd.rs"), os.path.join(tsrc, "verif_nd.rs"))
     lib = os.path.join(tsrc, "lib.rs")
+    have_nd = "pub mod nd;" in open(lib).read()
     with open(lib, "a") as f:
-        f.write("\n#[cfg(any(kani, verif_replay))]\n#[allow(missing_docs, dead_code, unused_imports, unused_macros)]\n#[path = \"verif_nd.rs\"]\npub mod nd;\n"
-                "#[cfg(any(kani, verif_replay))]\n#[path = \"verif_overlay.rs\"]\nmod verif_overlay;\n")
+        if not have_nd:
+            f.write("\n#[cfg(any(kani, verif_replay))]\n#[allow(missing_docs, dead_code, unused_imports, unused_macros)]\n#[path = \"verif_nd.rs\"]\npub mod nd;\n")
+        f.write("#[cfg(any(kani, verif_replay))]\n#[path = \"verif_overlay.rs\"]\nmod verif_overlay;\n")
     return {"client_lets": cl, "client_arg": ca, "server_lets": sl, "server_arg": sa, "client_span_expr": cspan,
             "server_span_expr": sspan, "wheel_max_duration_ms": wheel, "tokio_util_version": tver}
 
